@@ -7,7 +7,8 @@ package main
 // device 1 built with the buddy memory state, single PID. Each driver op is translated into the
 // device-level op of the case line `c10 buddy base=.. size=.. v=.. ; pop k ; am n ; add p,p,…`:
 //   alloc of k pages   -> pop k   (k × Device.allocatePage)
-//   remap of n pages   -> am n    (Device.allocateMultiplePages(n))
+//   remap of n pages   -> amadd n p,… (Device.allocateMultiplePages(n), then addSinglePAddr of the replaced
+//                         physical pages: the repaired Remap gives them back; `am n` when nothing is replaced)
 //   free / rmpage      -> add …   (addSinglePAddr of the physical pages, read from the page table first)
 // Implementation answer per op = physical pages now mapped (read back from the page table) + the free
 // blocks (VerifBuddyFreeBlocks). Oracles: `C10.buddy.alloc_only.*` on allocation-only histories,
@@ -194,7 +195,15 @@ func (c *c10dCase) remap(b *c10dBuf, off, n int) {
 	addr := b.ptr + uint64(off)*4096
 	op := fmt.Sprintf("remap 0 %x %x 1", addr, n*4096)
 	c.drvOps = append(c.drvOps, op)
-	c.ops = append(c.ops, fmt.Sprintf("am %d", n))
+	// the repaired Remap gives the pages it replaces back to their device (here: the same device, one
+	// process): allocateMultiplePages(n), then addSinglePAddr of every replaced page, in address order
+	old := c.mapped(addr, n)
+	if len(old) > 0 {
+		c.ops = append(c.ops, fmt.Sprintf("amadd %d %s", n, hexList(old)))
+		c.hasFree = true
+	} else {
+		c.ops = append(c.ops, fmt.Sprintf("am %d", n))
+	}
 	c.r.Count("buddy.op:am")
 	res := c.s.exec(op)
 	if res.fault {
